@@ -179,8 +179,13 @@ def _g_bp(tier):
     for tp in ("chain", "chain_saved", "diamond", "multi"):
         for lazy, caps in ((True, [4]), (False, [1, 2] if tier == "quick" else [1, 2, 3, 4])):
             for cap in caps:
+                # the run must be longer than what the graph can buffer: up to 2*cap - 1 messages per mailbox (queue +
+                # the batch a reader holds, F-C05) times the number of mailboxes on the way (<= 4) plus the chunks in
+                # flight - about 8*cap + 8.  n = 30 covers cap <= 2; with n = 30 and cap = 4 the multi-output template
+                # buffered the WHOLE run and the 'a < n' clause raised a false alarm in the thorough tier.
+                n = 30 if (lazy or cap <= 2) else 12 * cap + 12
                 for pol in ("lowest", "highest", "rr"):
-                    g.append(dict(template=tp, lazy=lazy, cap=cap, policy=pol, dev=0, n=30))
+                    g.append(dict(template=tp, lazy=lazy, cap=cap, policy=pol, dev=0, n=n))
         if tier != "quick":
             g.append(dict(template=tp, lazy=True, cap=4, policy="rr", dev=1, n=30))
     return g
